@@ -80,9 +80,32 @@ macro_rules! wire {
                         $lab.check(false, &format!("{}: its own JSON encoding decodes", $what));
                     }
                 }
-                if js.contains("\"ciphersuite\"") {
-                    let other = js.replacen(C_ID_PLACEHOLDER, "FROST-OTHER-SUITE-v1", 1);
-                    let _ = other;
+                // the other ways a JSON document reaches a decoder: from a reader (no borrowing from
+                // the input), from a parsed `Value`, and with (equivalent) escaped characters
+                match serde_json::from_reader::<_, $ty>(js.as_bytes()) {
+                    Ok(back) => {
+                        $lab.check(&back == v, &format!("{}: JSON decoding from a reader returns an equal value", $what));
+                    }
+                    Err(_) => {
+                        $lab.check(false, &format!("{}: its own JSON encoding decodes from a reader", $what));
+                    }
+                }
+                match serde_json::to_value(v).ok().and_then(|val| serde_json::from_value::<$ty>(val).ok()) {
+                    Some(back) => {
+                        $lab.check(&back == v, &format!("{}: JSON decoding from a parsed value returns an equal value", $what));
+                    }
+                    None => {
+                        $lab.check(false, &format!("{}: its own JSON value decodes", $what));
+                    }
+                }
+                let escaped = js.replace('-', "\\u002d");
+                match serde_json::from_str::<$ty>(&escaped) {
+                    Ok(back) => {
+                        $lab.check(&back == v, &format!("{}: JSON with escaped characters decodes to an equal value", $what));
+                    }
+                    Err(_) => {
+                        $lab.check(false, &format!("{}: the same JSON document with \\u002d for '-' decodes", $what));
+                    }
                 }
             }
             Err(_) => {
